@@ -18,7 +18,7 @@ TDIGEST_JOB = job("tdigest",
     args=lambda tier, seed, k, profile: ["--seed", seed, "--segments", 5 if tier == Q else 8, "--events", (220 if tier == Q else 420) + 30 * (k % 4),
                                          "--bigk", 0 if tier == Q else 20,
                                          "--serde", 20 if profile == "serde" else 4, "--ref", "/repo/tdigest/test",
-                                         "--hdr", 70 if profile == "serde" else 2],
+                                         "--hdr", 70 if profile == "serde" else 2, "--restore", 1 if k == 0 else 0],
     nontrivial=tdigest_nontrivial,
 )
 
